@@ -417,6 +417,7 @@ def no_thread_available(ctx):
 def run(ctx):
     no_thread_available(ctx)
     cyclic_exception_chains(ctx)
+    falsy_stores(ctx)
     import c06
     c06.retry_across_calls(ctx)        # several calls through one retry: no call is retried for ever, run returns
     transform_cycles(ctx)
@@ -598,3 +599,60 @@ def cyclic_exception_chains(ctx):
                              % (name, pname, workers, "did not return within 25 s" if oc == "hang" else oc, left), {"chain": name, "progress": pname, "max_workers": workers})
                     if oc == "hang":
                         return
+
+
+def falsy_stores(ctx):
+    """A value store is an ordinary object: an in-memory / history store that defines __len__ or __bool__ is falsy while it is empty.
+    Runs over registries in which SOME or ALL stores are falsy still terminate - stale check and physical run - with the right values,
+    for every worker setting, and leave no thread behind."""
+    import datetime as dt
+    uberjob = core.use_repo()
+    for falsy_by in ("__len__", "__bool__"):
+        for which in ("all stores", "the source only", "the stored values only"):
+            for workers, stale_workers in ((None, None), (1, 1), (4, 2)):
+                def mk(falsy):
+                    class Hist(uberjob.ValueStore):
+                        def __init__(self):
+                            self.items = []
+
+                        def read(self):
+                            return self.items[-1][0]
+
+                        def write(self, v):
+                            self.items.append((v, dt.datetime(2021, 1, 1) + dt.timedelta(seconds=len(self.items))))
+
+                        def get_modified_time(self):
+                            return self.items[-1][1] if self.items else None
+                    if falsy:
+                        if falsy_by == "__len__":
+                            Hist.__len__ = lambda self: 0
+                        else:
+                            Hist.__bool__ = lambda self: False
+                    return Hist()
+                plan, reg = uberjob.Plan(), uberjob.Registry()
+                src_store = mk(which != "the stored values only")
+                src_store.items.append((5, dt.datetime(2020, 1, 1)))
+                src = reg.source(plan, src_store)
+                a = plan.call(lambda v: v + 1, src)
+                b = plan.call(lambda v: v * 2, a)
+                sa, sb = mk(which != "the source only"), mk(which != "the source only")
+                reg.add(a, sa)
+                reg.add(b, sb)
+                for rnd in ("first run", "repeated run"):
+                    before = set(threading.enumerate())
+                    ctx.case(("c07-falsy-stores", falsy_by, which, workers, rnd))
+                    try:
+                        res = core.call_watched(lambda: uberjob.run(plan, registry=reg, output=b, progress=None, max_workers=workers, stale_check_max_workers=stale_workers), timeout=20)
+                        oc = "returned %r" % (res,)
+                    except core.Hang:
+                        oc = "hang"
+                    except BaseException as e:      # noqa
+                        oc = "raised %s: %r" % (type(e).__name__, getattr(e, "__cause__", None))
+                    time.sleep(0.02)
+                    left = [t.name for t in threading.enumerate() if t not in before and t.name != "watched-call"] if oc != "hang" else []
+                    if oc != "returned 12" or left:
+                        ctx.fail("falsy-stores", "value stores that are falsy (define %s; %s), max_workers=%r, stale_check_max_workers=%r, %s: run %s; threads left: %r"
+                                 % (falsy_by, which, workers, stale_workers, rnd, "did not return within 20 s" if oc == "hang" else oc, left),
+                                 {"falsy_by": falsy_by, "which": which, "max_workers": workers, "stale_check_max_workers": stale_workers, "round": rnd})
+                        if oc == "hang":
+                            return
